@@ -645,7 +645,7 @@ func (h *histRun) exec() {
 				rep, src := w.reps[o.R], w.reps[o.Src]
 				var want16 []iface.IPFSLogEntry
 				check16 := false
-				if o.Size >= 0 && unbounded[o.R] && unbounded[o.Src] && o.R != o.Src && rep.logID == src.logID {
+				if o.Size >= 0 && unbounded[o.R] && unbounded[o.Src] && o.R != o.Src && rep.logID == src.logID && !h.outside[o.R] && !h.outside[o.Src] {
 					union := map[string]iface.IPFSLogEntry{}
 					for _, e := range rep.log.GetEntries().Slice() {
 						union[e.GetHash().String()] = e
@@ -696,7 +696,7 @@ func (h *histRun) exec() {
 						h.fail("C06", "failed-join-unchanged", "C06:failed-join-changed-log", "a failed join changed the log", i)
 					}
 				} else {
-					if o.Size >= 0 && !h.noOracle {
+					if o.Size >= 0 && !h.noOracle && !h.outside[o.R] && !h.outside[o.Src] {
 						h.oracle16(o, i)
 					}
 					if check16 {
@@ -838,8 +838,8 @@ func (h *histRun) probeTruncated() {
 	w := h.w
 	last := len(h.ops) - 1
 	for k, rep := range w.reps {
-		if h.unbounded[k] {
-			continue
+		if h.unbounded[k] || h.outside[k] {
+			continue // logs opened under a foreign id or at a named head (known finding K5) are not logs in the sense of the theorems
 		}
 		twin, err := ipfslog.NewLog(w.api, w.idents[rep.ident], &ipfslog.LogOptions{ID: rep.logID, SortFn: sortFnOf(rep.sort),
 			AccessController: rep.ac, Entries: rep.log.GetEntries(), Heads: rep.log.Heads().Slice(), Clock: rep.log.Clock})
@@ -847,7 +847,7 @@ func (h *histRun) probeTruncated() {
 			panic(err)
 		}
 		for s, src := range w.reps {
-			if s == k || src.logID != rep.logID {
+			if s == k || src.logID != rep.logID || h.outside[s] {
 				continue
 			}
 			h.inImpl = true
@@ -918,6 +918,9 @@ func (h *histRun) monitorAppend(o hop, opIdx int, rep *replica, e iface.IPFSLogE
 		h.fail("C04", "clock-id-is-writer", "C04:clock-id", "clock id is not the writer's public key", opIdx)
 	}
 	for _, b := range before {
+		if h.outside[o.R] {
+			break // a log opened at a named head may hold entries beyond its heads (known finding K5)
+		}
 		if b.GetClock().GetTime() >= e.GetClock().GetTime() {
 			h.fail("C04", "time-dominates", "C04:time-not-greater", fmt.Sprintf("existing entry has time %d >= new time %d", b.GetClock().GetTime(), e.GetClock().GetTime()), opIdx)
 			break
